@@ -148,6 +148,16 @@ def extract(repo):
     g['CHECKSUM_PATCH'] = int(m.group(1))
     g['layout_record_Header'] = struct_fields(rec, 'Header', 'in record.rs')
 
+    # the validation chain of a record read back from a blob
+    g['RECORD_VALIDATE'] = straight_line(rec, 'validate', 'in record.rs (Record)', 0)
+    g['RECORD_CHECK_DATA'] = straight_line(rec, 'check_data_checksum', 'in record.rs')
+    g['HEADER_VALIDATE'] = straight_line(rec, 'validate', 'in record.rs (Header)', 1)
+    b = fn_body(rec, 'data_checksum_audit', 'in record.rs')
+    m = re.match(r"\s*let\s+(\w+)\s*=\s*CRC32C\.checksum\(\s*data\s*\)\s*;\s*if\s+(\w+)\s*(==|!=)\s*self\.data_checksum\s*\{\s*(Ok\(\(\)\)|)", b)
+    if not m or m.group(1) != m.group(2) or m.group(3) != '==' or m.group(4) != 'Ok(())' or len(re.findall(r"\bif\b", b)) != 1 \
+            or re.search(r"\breturn\b", b) or 'RecordDataChecksum' not in b:
+        raise Fail('data_checksum_audit: not `if CRC32C.checksum(data) == self.data_checksum { Ok(()) } else { Err(RecordDataChecksum) }`')
+    g['DATA_AUDIT'] = ['CRC32C.checksum(data)', '==', 'data_checksum', 'RecordDataChecksum']
     io = read(repo, 'src/io/unix/sync.rs')
     g['MAX_SYNC_OPERATION_SIZE'] = const(io, 'MAX_SYNC_OPERATION_SIZE')
 
@@ -386,6 +396,28 @@ def arith_fn(src, name, where, extern=None, consts=()):
     if rm:
         result = rm.group(1)
     return LeanFn(list(consts) + params + extra, lets, arith_expr(result, known, f'fn {name}'))
+
+
+def straight_line(src, name, where, nth=0):
+    """a function whose body is a straight line of calls (`a.b()?;` / `.with_context(..)?` / final `Ok(..)` or a final
+    call): the list of called names, `?` kept.  Any control flow (`if`, `match`, `return`, loops) makes the
+    translation fail: the model has none there"""
+    hits = [m.start() for m in re.finditer(r"\bfn\s+" + name + r"\b", src)]
+    if len(hits) <= nth:
+        raise Fail(f'fn {name} (occurrence {nth}) not found {where}')
+    body = fn_body(src[hits[nth]:], name, where)
+    if re.search(r"\b(if|match|return|while|for|loop)\b", body):
+        raise Fail(f'fn {name} {where}: control flow in a function the model treats as a straight line')
+    body = re.sub(r"\.with_context\(\s*\|\|\s*\"[^\"]*\"\s*\)", "", body)
+    out = []
+    for st in [' '.join(x.split()).replace(' ?', '?') for x in body.split(';') if x.strip()]:
+        if re.fullmatch(r"Ok\((\(\)|self)\)", st):
+            continue
+        m = re.fullmatch(r"(?:self\.)?((?:\w+\(?\)?\.)*)(\w+)\(([^()]*)\)(\??)", st)
+        if not m:
+            raise Fail(f'fn {name} {where}: statement not recognised: `{st}`')
+        out.append(m.group(1).replace('()', '') + m.group(2) + '(' + m.group(3).replace('&', '').replace('self.', '').strip() + ')' + m.group(4))
+    return out
 
 
 def lean_val(v):
